@@ -126,8 +126,36 @@ def make_stub(n, k, mode="c17"):
             acc.concrete("same_anomalies_under_other_index", got2 == want, dict(info, cpts=cc, index=kind, got=got2, want=want), eng=eng)
         acc.add_to("outputs", (tuple(cc), tuple(got)))
         acc.sample(dict(info, cpts=cc, anomalies=got))
+        _witness(eng, acc, n, cc, got)
 
     return Harness(run, base, name=f"stub {info}")
+
+
+def _witness(eng, acc, n, cc, got, cap=60):
+    """native run with a model of the path (margin on the flag comparisons)"""
+    from symnp.witness import robust_model
+    from .common import model_env
+    if acc.total("witness_tried") >= cap:
+        return
+    acc.inc("witness_tried")
+    model, _ = robust_model(eng)
+    if model is None:
+        acc.inc("witness_tie_only_path")
+        return
+    env = model_env(model)
+    from skchange.anomaly_detectors import StatThresholdAnomaliser
+    with proxy.native():
+        try:
+            out = StatThresholdAnomaliser(StubChangeDetector(cpts=tuple(cc)), stat=_num_stat(env), stat_lower=env.get("lo", 0.0),
+                                          stat_upper=env.get("hi", 0.0)).fit(rows_X(n)).predict(rows_X(n))
+            nat = [(int(i.left), int(i.right)) for i in out["ilocs"]]
+        except Exception as ex:
+            acc.error(f"C17 witness: native run raised {type(ex).__name__}: {ex}")
+            return
+    if nat == got:
+        acc.inc("witness_ok")
+    else:
+        acc.error(f"C17 witness mismatch: symbolic {got} native {nat} (cpts {cc}, env {env})")
 
 
 def _inner(kind, n, values=None, scale=None):
